@@ -19,7 +19,8 @@ COQ_CASE_TYPE = "case"
 RULE = ("forests as in C03 (1-3 destinations, depth <= 2 (thorough <= 3), the same class reused at several destinations and depths, "
         "user prefixes) over the names {a, bb, cc, x, a_b, c_d} with aliases of EQUAL length to the name or to each other, aliases "
         "that are other fields' names, single/double-dash aliases, cmd=False and init=False fields, help texts (none, short, long "
-        "enough to wrap; given through simple_parsing.field or plain dataclasses metadata), int/str/None/required defaults x "
+        "enough to wrap; given through simple_parsing.field or plain dataclasses metadata), int/str/float/bool/List[int]/None/required "
+        "fields; outside defaults differ from the definition's and are FALSY (0, '', 0.0, False, []) in every second draw x "
         "{AUTO, EXPLICIT, NONE} x all 18 (dash variant, generation mode, nested mode) configurations x default source {none, default "
         "instance, set_defaults, constructor config file}; every case is run in 8 (thorough 32) FRESH interpreters with "
         "PYTHONHASHSEED = 0..n-1: `--help` stdout/stderr/status, format_help(), the registered actions, probes of every hidden "
@@ -33,7 +34,7 @@ TRUSTED = ["harness/c16_driver.py: tolerant help-text parser (entry = line inden
            "read from FieldWrapper.option_strings in the same interpreter)",
            "argparse.HelpFormatter layout, wrapping and the usage line are NOT modelled (compared across hash seeds only)",
            "group descriptions (class docstrings) are not modelled; generated classes carry an explicit docstring"]
-ASSUMPTIONS = ["leaf fields are int or str; help texts are whitespace-normalised words without '%', '-' or the temporary token",
+ASSUMPTIONS = ["leaf fields are int, str, float, bool (names longer than one letter) or List[int]; help texts are whitespace-normalised words without '%', '-' or the temporary token",
                "single destination per wrapper (no ALWAYS_MERGE), no subgroups/subparsers, no positional fields",
                "defaults coming from outside the definition are non-None (None as 'unset' is C06's finding)",
                "config source with an un-rooted file (WITHOUT_ROOT, one destination): no override for a member named like the destination"]
@@ -70,11 +71,18 @@ def mkfield(rng, name, top, equal_len_bias=0.3):
         aliases = rng.sample(ALIAS_POOL, rng.randint(1, 2))
     aliases = list(dict.fromkeys(aliases))
     d = rng.random()
-    if d < 0.45:
-        default = ["int", rng.randint(0, 99)]
-    elif d < 0.7:
+    if d < 0.3:
+        default = ["int", rng.randint(1, 99)]
+    elif d < 0.45:
         default = ["str", rng.choice(["q", "abc", "v1"])]
-    elif d < 0.85 or not top:
+    elif d < 0.55:
+        default = ["float", rng.choice(["0.5", "2.25"])]
+    elif d < 0.65:
+        default = ["list", rng.choice([[64, 64], [7]])]
+    elif d < 0.75 and len(name) > 1:
+        # (one-letter bool fields get the same negative spelling twice under NESTED/BOTH - C12's subject - so they are left out)
+        default = ["bool", rng.choice([True, True, False])]
+    elif d < 0.87 or not top:
         default = ["none"]
     else:
         default = ["req"]
@@ -151,9 +159,19 @@ def exposed_leaves(case, dest=None):
 
 
 def new_value(rng, f):
-    if f["default"][0] == "str":
-        return ["str", rng.choice(["zed", "w", "kappa"])]
-    return ["int", rng.randint(100, 199)]
+    """a value coming from outside the definition, different from the definition's; in every second draw a FALSY one
+    (0, "", 0.0, False, [])"""
+    k = f["default"][0]
+    falsy = rng.random() < 0.5
+    if k == "str":
+        return ["str", "" if falsy else rng.choice(["zed", "w", "kappa"])]
+    if k == "float":
+        return ["float", "0.0" if falsy else rng.choice(["1.5", "3.0"])]
+    if k == "list":
+        return ["list", [] if falsy else rng.choice([[1, 2, 3], [9]])]
+    if k == "bool":
+        return ["bool", not f["default"][1]]
+    return ["int", 0 if falsy else rng.randint(100, 199)]
 
 
 def add_source(rng, case, source):
@@ -195,7 +213,8 @@ def fixed_trees():
           "kids": []}
     t2 = {"fields": [f("a_b", help="h1"), f("ni", init=False, via="dc")],
           "kids": [["k_d", {"fields": [f("cc", ["bb"], default=("none",)), f("x", ["y"])], "kids": []}]]}
-    t3 = {"fields": [f("cc", default=("str", "abc"))], "kids": []}
+    t3 = {"fields": [f("cc", default=("float", "0.5")), f("bb", default=("list", [64, 64])), f("a_b", help="h1", default=("bool", True))],
+          "kids": []}
     return t1, t2, t3
 
 
@@ -505,6 +524,8 @@ def features(case, obs):
     return {"mode": case["mode"], "dv": case["dv"], "gm": case["gm"], "nm": case["nm"], "source": case["source"],
             "ndest": len(case["dests"]), "nexposed": min(len(fws), 10),
             "hidden": sum(1 for _, t in drv.walk(case) for f in t["fields"] if not drv.exposed(f)),
+            "falsy_outside_defaults": min(3, sum(1 for _, v in case["over"] if drv.is_falsy(v))),
+            "types": "+".join(sorted({f["default"][0] for _, f in fws})),
             "end": "-".join(str(x) for x in obs["variants"][0]["end"]), "ntexts": obs["ntexts"], "nvariants": len(obs["variants"]),
             "tie": _has_tie(case, obs), "autodoc": sum(1 for _, t in drv.walk(case) if t.get("doc") == "auto"),
             "fresh_format_help_lists_fields": any(v["fresh_format_help_sections"] > 1 for v in obs["variants"])}
@@ -564,7 +585,7 @@ def _forest(case, n, docs):
         fs = []
         for f in tree["fields"]:
             fs.append(f"(mkhf (mkfw {n.ss(path)} {n.s(f['name'])} {n.s(up)} {n.ss(f['aliases'])} false) {cbool(f['init'])} "
-                      f"{_cmd_meta(f)} {n.s(f['help'])} {n.os(drv.value_text(f['default']))})")
+                      f"{_cmd_meta(f)} {n.s(f['help'])} {n.os(drv.value_text(f['default']))} {cbool(f['default'][0] == 'bool')})")
         ws.append(f"(mkhw {n.s(tree['cls'])} {n.ss(path)} {n.s(docs.get(tree['cls'], drv.DOC.format(tree['cls'])))} {clist(fs)})")
     return clist(ws)
 
@@ -619,7 +640,7 @@ def coq_variants(obs, nseeds=8):
 
 def to_coq(case, obs):
     n = Names()
-    over = clist([cpair(n.s(p), n.s(drv.value_text(v))) for p, v in case["over"]])
+    over = clist([cpair(n.s(p), f"(mkdv {n.s(drv.value_text(v))} {cbool(drv.is_falsy(v))})") for p, v in case["over"]])
     pre = over if case["source"] in ("instance", "set_defaults") else "[]"
     cfgf = over if case["source"] == "config" else "[]"
     req = n.ss([".".join(p + [f["name"]]) for p, f in exposed_leaves(case) if f["default"][0] == "req"])
